@@ -47,9 +47,9 @@ def _py_vectors(ctx, n_hkdf, n_pb):
 
 def run(ctx):
     ctx.level = "model_checking"
-    ctx.rule = ("cases = (a) HKDF Read histories: every sequence of exactly D Read sizes (D=3 quick, 4 thorough) over {0,1,H-1,H,H+1,2H+1,127H+3,254H,255H-2,"
+    ctx.rule = ("cases = (a) HKDF Read histories: every sequence of exactly D Read sizes (D=3 quick, 4 thorough) over {0,1,H-1,H,H+1,2H-1,2H,2H+1,127H+3,254H,255H-2,"
                 "255H-1,255H,255H+1} enumerated by TLC from HkdfReader for H in {3,4 (toy hash), 20,32,64 (SHA-1/256/512)}, each replayed on up to 6 real "
-                "readers (hkdf.New and hkdf.Expand alternately) over streams with different secret/salt/info; long seeded random histories of small reads; "
+                "readers (hkdf.New and hkdf.Expand alternately; caller-buffer discipline rotating: fresh+overwritten, shared+overwritten, shared+kept) over streams with different secret/salt/info; long seeded random histories of small reads; "
                 "(b) Extract/whole-stream/PBKDF2 values: TLC-evaluated with the toy hash over (secret,salt,info) and (password,salt,iter 1..5,keyLen around "
                 "multiples of H and beyond 255 blocks), RFC 5869/6070 vectors, Python-computed vectors, seeded random inputs judged by the validated "
                 "transcription; distinct = distinct (stream, history) or (function, inputs)")
